@@ -196,7 +196,15 @@ def _mk_aliases(table):
 
     al = Aliases()
     al._raw.clear()
-    al._raw.update({k: list(v) for k, v in table.items()})
+    for k, v in table.items():
+        if isinstance(v, dict) and "rc" in v:
+            def f(args, decorators=None, env=None, _cmd=v["rc"]):
+                return list(_cmd) + list(args)
+            f.return_what = "command"
+            f.__name__ = "rc_" + k
+            al._raw[k] = f
+        else:
+            al._raw[k] = list(v)
     return al
 
 
@@ -229,12 +237,24 @@ def _eval_alias_replay(inputs):
     wrapped.seen = []
     Aliases.eval_alias = wrapped
     out = {"__logs__": logs}
+    import sys
+    lim = sys.getrecursionlimit()
+    sys.setrecursionlimit(300)  # a non-terminating expansion shows up as RecursionError quickly
     try:
         inputs["self"] = al
+        for k_, v_ in al._raw.items():
+            if callable(v_):
+                def counted(args, decorators=None, env=None, _f=v_):
+                    logs["rc_call"].append(1)
+                    return _f(args, decorators=decorators, env=env)
+                counted.return_what = "command"
+                counted.__name__ = v_.__name__
+                al._raw[k_] = counted
         out["__result__"] = al.eval_alias(list(inputs["value"]), frozenset(inputs["seen_tokens"]), tuple(inputs["acc_args"]), decorators=None)
     except BaseException as e:  # noqa
         out["__result__"], out["__exc__"] = None, e
     finally:
+        sys.setrecursionlimit(lim)
         Aliases.eval_alias = real
         XSH.env = saved
     return out
@@ -253,8 +273,15 @@ def _eval_alias_domain(tier, seed):
             for value in (["a"], ["a", "u1", "u2"], ["b", "u1"], ["x", "u1"]):
                 for seen in ([], ["a"]):
                     cases.append({"table": table, "value": value, "seen_tokens": seen, "acc_args": ["z1", "z2"], "decorators": None, "env_out": None})
-    return {"cases": cases, "bound": "alias tables over names a,b,c with bodies of <= 2 words from {a,b,c,x}; %d cases" % len(cases),
-            "domain": "list aliases only (no callables), every cycle shape among 3 names"}
+    # tables with a return_command alias (it returns its command + the arguments it was given)
+    for rc_cmd in (["a"], ["b", "-r"], ["x"], ["c"]):
+        for ba in (["c", "p"], ["b"], ["a", "q"], ["x"]):
+            for bb in (["c"], ["a"], ["x", "y"]):
+                table = {"a": ba, "b": bb, "c": {"rc": rc_cmd}}
+                for value in (["a", "u1"], ["b"], ["c", "u1"]):
+                    cases.append({"table": table, "value": value, "seen_tokens": [], "acc_args": ["z1"], "decorators": None, "env_out": None})
+    return {"cases": cases, "bound": "alias tables over names a,b,c with bodies of <= 2 words from {a,b,c,x}, c optionally a return_command alias; %d cases" % len(cases),
+            "domain": "list aliases and one return_command alias, every cycle shape among 3 names"}
 
 
 class _Raw:
